@@ -12,7 +12,7 @@ EXTENDS Scratch, TLC
 CONSTANTS Lens, Needs
 
 PairKinds  == {"MixedRadix", "GoodThomasAlgorithm", "MixedRadixSmall", "GoodThomasAlgorithmSmall"}
-UnaryKinds == {"RadersAlgorithm", "BluesteinsAlgorithm", "Radix4", "Radix3", "RadixN"}
+UnaryKinds == {"RadersAlgorithm", "BluesteinsAlgorithm", "Radix4", "Radix3", "RadixN", "AvxRadix"}
 
 Child(len, a, b, c) == [len |-> len, scr |-> <<a, b, c>>]
 Children == {Child(n, a, b, c) : n \in Lens, a \in Needs, b \in Needs, c \in Needs}
@@ -22,7 +22,7 @@ Init ==
     \/ /\ k \in PairKinds
        /\ ch \in {<<x, y>> : x \in {z \in Children : z.scr[3] = 0}, y \in {z \in Children : z.scr[3] = 0}}   \* the immutable need of a child is never used by a wrapper
     \/ /\ k \in UnaryKinds
-       /\ ch \in {<<x>> : x \in {z \in Children : z.scr[2] = 0 /\ z.scr[3] = 0}}
+       /\ ch \in {<<x>> : x \in {z \in Children : z.scr[3] = 0 /\ (k # "AvxRadix" => z.scr[2] = 0)}}
 Next == UNCHANGED <<k, ch>>
 Spec == Init /\ [][Next]_<<k, ch>>
 
